@@ -63,6 +63,47 @@ def unmarshal (inner : Bytes → Option α) (data : Bytes) : Option α := inner 
 
 theorem unmarshal_is_inner (inner : Bytes → Option α) (d : Bytes) : unmarshal inner d = inner d := rfl
 
+/-! ### what a receiver that knows the message type sees
+
+A parser with a schema sorts the wire fields into those the message type declares (they become the
+message's data) and the rest (kept aside as unknown fields). -/
+
+/-- (declared fields, unknown fields), each in wire order -/
+def sortFields (declared : Nat → Bool) (fs : List WField) : List WField × List WField :=
+  (fs.filter fun f => declared f.num, fs.filter fun f => !declared f.num)
+
+/-- **C19** for a message type that does not declare field 2047, decoding the output gives exactly the
+    declared data of the original; the checksum is one more unknown field, in front of the original's -/
+theorem decode_marshal (declared : Nat → Bool) (hd : declared 2047 = false) (n : Nat) (b out : Bytes) (fs : List WField)
+    (h : marshal field wire (some b) = some out) (hp : parseN n b = some fs) :
+    ∃ fs', parseN (n + 1) out = some fs' ∧
+      (sortFields declared fs').1 = (sortFields declared fs).1 ∧
+      (sortFields declared fs').2 =
+        { num := 2047, payload := .fixed32 (fixed32le (crc32c b).toNat) } :: (sortFields declared fs).2 := by
+  refine ⟨_, by rw [parse_marshal n b out h, hp]; rfl, ?_, ?_⟩ <;> simp [sortFields, hd]
+
+/-- **K8** (the property fails, in the model as in the code) for a message type that *declares* field
+    2047 the checksum lands among the declared data: the decoded message has one more declared field
+    value than the original, whatever the original was -/
+theorem declared_2047_corrupts (declared : Nat → Bool) (hd : declared 2047 = true) (n : Nat) (b out : Bytes) (fs : List WField)
+    (h : marshal field wire (some b) = some out) (hp : parseN n b = some fs) :
+    ∃ fs', parseN (n + 1) out = some fs' ∧
+      (sortFields declared fs').1 =
+        { num := 2047, payload := .fixed32 (fixed32le (crc32c b).toNat) } :: (sortFields declared fs).1 ∧
+      (sortFields declared fs').1 ≠ (sortFields declared fs).1 := by
+  have e : (sortFields declared ({ num := 2047, payload := .fixed32 (fixed32le (crc32c b).toNat) } :: fs)).1 =
+      { num := 2047, payload := .fixed32 (fixed32le (crc32c b).toNat) } :: (sortFields declared fs).1 := by
+    simp [sortFields, hd]
+  refine ⟨_, by rw [parse_marshal n b out h, hp]; rfl, e, ?_⟩
+  rw [e]
+  intro hc
+  have := congrArg List.length hc
+  simp at this
+
+/-- test: `Rec{name:"x"}` with `fixed32 version = 2047` declared: the decoded declared data has a `version` -/
+example : (sortFields (fun k => k == 1 || k == 2047)
+    [⟨2047, .fixed32 [1, 2, 3, 4]⟩, ⟨1, .lenDelim [0x78]⟩]).1 = [⟨2047, .fixed32 [1, 2, 3, 4]⟩, ⟨1, .lenDelim [0x78]⟩] := by decide
+
 /-! ### varint round trip (the encoder and the parser's reader agree) -/
 
 theorem readVarint_varint (n : Nat) (rest : Bytes) (fuel : Nat) (hf : n < 128 ^ (fuel + 1)) :
